@@ -353,8 +353,11 @@ class Report:
         return 1 if nv else 0
 
 
-def require_ok(res, what):
+def require_ok(res, what, min_states=20):
     """An exhaustive model-checking run of the specification itself must pass; if it does not, the machinery
     (the specification) is broken - that is exit 2, never a VIOLATION of the code."""
     if not res.ok:
         raise MachineryError('model checking of %s failed:\n%s' % (what, res.stdout[-4000:]))
+    if res.distinct < min_states:
+        # vacuity guard: an exhaustive instance that explores (almost) nothing decides nothing
+        raise MachineryError('model checking of %s explored only %d states (vacuous instance?)' % (what, res.distinct))
